@@ -31,6 +31,13 @@ type Start struct {
 	// NS: how the numbering / footnotes / endnotes parts bind the WordprocessingML namespace:
 	// "" = prefix w (as the library writes), else one of nsSchemes (see nsrewrite.go)
 	NS string `json:"ns,omitempty"`
+	// StylesNS: the same for the styles part (and, with Minimal/NoStyles, for the style-less styles part):
+	// a styles part written by a generic XML toolkit is <ns0:styles xmlns:ns0="..."> or uses the default namespace.
+	// StylesForm: how that part is laid out ("" = as re-serialised: one line; see stylesForms in nsrewrite.go).
+	StylesNS string `json:"stylesns,omitempty"`
+	// MainNS: the same for the main part (word/document.xml): the references themselves are then not spelled w:pStyle / w:numId
+	MainNS     string `json:"mainns,omitempty"`
+	StylesForm string `json:"stylesform,omitempty"`
 	// NoStyles: the package lacks the (optional) styles part or carries one without any style definition:
 	// "" = it has its styles part, "absent" = no word/styles.xml (no content type, no relationship),
 	// "empty" = a zero-length word/styles.xml, "hollow" = <w:styles .../> without children,
@@ -197,6 +204,16 @@ func buildStart(s *Start) ([]byte, error) {
 					return nil, err
 				}
 			}
+		case "word/styles.xml":
+			if data, err = restyle(data, s.StylesNS, s.StylesForm); err != nil {
+				return nil, err
+			}
+		case "word/document.xml":
+			if s.MainNS != "" {
+				if data, err = reprefix(data, s.MainNS); err != nil {
+					return nil, err
+				}
+			}
 		}
 		w, err := zw.Create(n)
 		if err != nil {
@@ -217,9 +234,9 @@ func (s *Start) sig() string {
 		return "new"
 	}
 	if s.Minimal {
-		return fmt.Sprintf("start(minimal,p=%d,t=%v,rels=%v,styles=%s)", s.MinParas, s.MinTable, s.MinRels, s.NoStyles)
+		return fmt.Sprintf("start(minimal,p=%d,t=%v,rels=%v,styles=%s,sns=%s,mns=%s)", s.MinParas, s.MinTable, s.MinRels, s.NoStyles, s.StylesNS, s.MainNS)
 	}
-	return fmt.Sprintf("start(%s,strip=%v,h=%d,c=%v,q=%v,l=%d,f=%d,e=%d,ns=%s,styles=%s)", s.Scheme, s.Strip, len(s.Headings), s.Custom, s.Quote, s.Lists, s.Footnotes, s.Endnotes, s.NS, s.NoStyles)
+	return fmt.Sprintf("start(%s,strip=%v,h=%d,c=%v,q=%v,l=%d,f=%d,e=%d,ns=%s,styles=%s,sns=%s/%s,mns=%s)", s.Scheme, s.Strip, len(s.Headings), s.Custom, s.Quote, s.Lists, s.Footnotes, s.Endnotes, s.NS, s.NoStyles, s.StylesNS, s.StylesForm, s.MainNS)
 }
 
 func hasPrefixAny(s string, p ...string) bool {
